@@ -533,7 +533,7 @@ pub fn run(ctx: &Ctx) -> Report {
         judge(&obs, what, rep, &d);
     });
     rep.merge(r);
-    if !ctx.miri && ctx.only.is_none() {
+    if ctx.strict() {
         rep.require("outcome_err", 1000);
         rep.require("outcome_ok", 100);
         rep.require("inputs_answered_conformantly", 1000);
